@@ -88,6 +88,19 @@ def check(ctx):
     # ----------------------------------------------------------- MPT-rank
     cfg = cfg_of(rank)
     fall = [p for p, _ in cfg.exit.pred if not (p.kind == "stmt" and isinstance(p.ast, ast.Return))]
+    # every result of sort depends on the requested direction
+    from ..dataflow import depends_on
+    dpar = "dir" if "dir" in sort.kwonly + sort.params else None
+    n_dirdep = 0
+    if dpar:
+        for r in [n for n in body_nodes(sort.node) if isinstance(n, ast.Return) and n.value is not None]:
+            n_dirdep += 1
+            dep = depends_on(sort, r.value, r, dpar)
+            ctx.ob("ORD-3", sort, f"{norm(r)[:70]} depends on {dpar}", r, dep,
+                   "the result is ordered according to the requested direction" if dep else
+                   f"this result of Vector.sort does not depend on {dpar}: sort(dir=-1) returns the ascending order",
+                   clause="sort orders the elements in the requested direction")
+    ctx.count("results of Vector.sort", n_dirdep, 1)
     ctx.ob("MPT-rank", rank, "unknown method -> raise", rank.node, not fall,
            "control cannot fall off the end of rank: unknown methods are rejected" if not fall else
            "rank can fall through and return None for an unknown method", clause="all rank methods")
